@@ -50,12 +50,16 @@ class Arm:
         k = tag(t)
         if k == 'const':
             return ('k', t[2])
-        if k == 'index' and tag(strip(t[1])) == 'call' and strip(t[1])[1] == IDX:
+        if k == 'index' and tag(strip(t[1])) == 'call' and strip(t[1])[1] in (IDX, IDXM):
             m, a = strip(t[1])[2]
             m = strip(m)
             if m in env:
                 m = env[m]
             nm = self.names.get(m)
+            if nm is None and m == getattr(self, 'out', None):
+                # read-modify-write of the result being built: out[I][J] holds the value built so far
+                a_, b_ = self.idx(a, env), self.idx(t[2], env)
+                return self.cur if (a_, b_) == ('I', 'J') else ('?', 'read of out[%s][%s]' % (a_, b_))
             if nm is None:
                 return ('?', 'read of %s' % show(m)[:40])
             return ('cell', nm, self.idx(a if a not in env else a, env) if not isinstance(env.get(strip(a)), str) else env[strip(a)], self.idx(t[2], env))
@@ -148,6 +152,7 @@ def arm_cells(prog, f, ev, trail, ret):
                 a, b = arm.idx(base[2][1], env), arm.idx(t[2], env)
                 if (a, b) != ('I', 'J'):
                     raise NotRecognised('store into out[%s][%s]' % (a, b))
+                arm.out, arm.cur = N, F
                 F = arm.cell_of(s.value, dict(env))
                 effects += 1
                 continue
@@ -235,7 +240,19 @@ def arm_cells(prog, f, ev, trail, ret):
             effects += 1
     if effects != 1:
         raise NotRecognised('%d effects in the arm loop' % effects)
+    if _has_unknown(F):
+        raise NotRecognised('element expression not read: %r' % (F,))
+    if rows is None or (J is not None and cols is None):
+        raise NotRecognised('loop bound not a dimension of an operand')
     return {'kind': short(path), 'F': F, 'rows': rows, 'cols': cols, 'stride': stride, 'fresh': fresh, 'N': N}
+
+
+def _has_unknown(F):
+    if F == '?':
+        return True
+    if isinstance(F, tuple):
+        return (len(F) > 0 and F[0] == '?') or any(_has_unknown(x) for x in F[1:])
+    return False
 
 
 _AAR = {}
